@@ -39,6 +39,10 @@ type action struct {
 	wdAddr *common.Address // withdraw: address and the (lower-cased) peers it lists
 	wdPubs []string
 	mod    *modelOp // what the independent release model learns when the call succeeds
+	// spelling
+	alt       bool // a key taken from the observed state is passed in an alternative hex spelling of the same bytes
+	dup       bool // registerCandidate of a key that is already in the pool, in another spelling
+	dupStaked bool // ... on which somebody other than the owner holds a position
 }
 
 type hist struct {
@@ -63,6 +67,9 @@ type hist struct {
 	topUpKind            map[pairKey]string // node status at that moment
 	warm                 bool               // during the warm-up epochs (judged, but not counted as generated epochs)
 	nt10, nt11           bool
+	alt, altHit          bool // spelling mode of the step being built / a key was really respelt (actions_test.go: sp)
+	dupTried, dupStaked  bool // the history offered an in-pool key again in another spelling (… of a peer others staked on)
+	dupSplit             bool // ... and a split2 settlement with income followed (C10)
 	counts               map[string]int
 }
 
@@ -111,13 +118,32 @@ func (h *hist) exec(a *action) bool {
 	if !ok {
 		res = "failed"
 	}
-	h.class(a.kind)
-	h.class(a.kind + ":" + res)
-	if a.valid {
+	switch {
+	case a.alt:
+		// steps in alternative-spelling mode are counted apart from the kind's own classes (whose ok-rates the
+		// floors watch): most of them must fail, the contract finds pool entries by the exact string
+		h.class("spelling:alt")
+		h.class(a.kind + "(respelt)")
+		h.class(a.kind + "(respelt):" + res)
+		h.class("intent:respelt:" + res)
+		if a.dup {
+			h.class("registerCandidate(respelt):pool-key")
+			h.class("registerCandidate(respelt):pool-key:" + res)
+			h.dupTried = true
+			if a.dupStaked {
+				h.class("registerCandidate(respelt):pool-key:staked")
+				h.dupStaked = true
+			}
+		}
+	case a.valid:
+		h.class(a.kind)
+		h.class(a.kind + ":" + res)
 		h.class(a.kind + ":valid")
 		h.class(a.kind + ":valid:" + res)
 		h.class("intent:valid:" + res)
-	} else {
+	default:
+		h.class(a.kind)
+		h.class(a.kind + ":" + res)
 		h.class("intent:arbitrary:" + res)
 	}
 	h.log = append(h.log, a.desc+"="+res)
@@ -408,6 +434,9 @@ func (h *hist) judgeC10(a *action, pre, post *snap, epoch bool, gasDelta, credPr
 	}
 	if income.Sign() > 0 {
 		h.class("epoch:split2:income>0")
+		if h.dupTried {
+			h.dupSplit = true
+		}
 	}
 	if gasDelta > 0 {
 		h.class("epoch:split2:dapp>0")
